@@ -49,6 +49,7 @@ type harnessResult struct {
 }
 
 type worker struct {
+	lastResult value
 	id  int
 	in  *interp
 	s   *solver
@@ -150,6 +151,12 @@ func newExplorer(w *world, b bounds, solverName string) (*explorer, error) {
 		if err != nil {
 			return nil, err
 		}
+		if dir := os.Getenv("GOSYM_SOLVER_LOG"); dir != "" {
+			os.MkdirAll(dir, 0o755)
+			if f, err := os.Create(fmt.Sprintf("%s/w%d.smt2", dir, i)); err == nil {
+				s.log = f
+			}
+		}
 		wk := &worker{id: i, s: s, w: w, in: newInterp(w)}
 		ex.workers[i] = wk
 		wg.Add(1)
@@ -182,53 +189,116 @@ func (w *world) findHarness(pkgPath, name string) *ssa.Function {
 	return p.Func(name)
 }
 
-func (ex *explorer) run(fn *ssa.Function, name string) *harnessResult {
-	res := &harnessResult{Name: name, Status: map[string]int{}, Unsupported: map[string]int{}, EngineErrors: map[string]int{},
-		Undis: map[string]int{}, Notes: map[string]int{}, Witness: map[string]model{}, Funcs: map[string]int{}, engineStacks: map[string]string{}}
-	t0 := time.Now()
+func (ex *explorer) run(fn *ssa.Function, name string, hargs ...value) *harnessResult {
+	h := harness{name: name, fn: fn}
+	if len(hargs) == 1 {
+		h.hasArg = true
+		h.arg = hargs[0].(int)
+	}
+	return ex.runMany([]harness{h}, nil)[0]
+}
+
+type workItem struct {
+	h   int
+	pre prefix
+}
+
+// runMany explores all harnesses with one shared pool of workers: the work
+// list holds (harness, decision prefix) items, so both many small harnesses
+// and one harness with many paths keep all workers busy.
+func (ex *explorer) runMany(hs []harness, progress func(*harnessResult)) []*harnessResult {
+	results := make([]*harnessResult, len(hs))
+	type hstate struct {
+		busy, queued int
+		spent        float64 // cumulative seconds of path execution
+		started      time.Time
+		failSeen     map[string]bool
+		done         bool
+	}
+	states := make([]*hstate, len(hs))
 	var mu sync.Mutex
 	cond := sync.NewCond(&mu)
-	stack := []prefix{{}}
-	busy := 0
-	failSeen := map[string]bool{}
-	deadline := t0.Add(time.Duration(ex.b.MaxSeconds) * time.Second)
+	var stack []workItem
+	for i := len(hs) - 1; i >= 0; i-- {
+		results[i] = &harnessResult{Name: hs[i].name, Status: map[string]int{}, Unsupported: map[string]int{}, EngineErrors: map[string]int{},
+			Undis: map[string]int{}, Notes: map[string]int{}, Witness: map[string]model{}, Funcs: map[string]int{}, engineStacks: map[string]string{}}
+		states[i] = &hstate{failSeen: map[string]bool{}, queued: 1}
+		stack = append(stack, workItem{h: i})
+	}
+	totalBusy := 0
+	finish := func(i int) {
+		st := states[i]
+		if st.done || st.busy > 0 || st.queued > 0 {
+			return
+		}
+		st.done = true
+		r := results[i]
+		r.Seconds = st.spent
+		sort.Slice(r.Failures, func(a, b int) bool { return r.Failures[a].key() < r.Failures[b].key() })
+		if progress != nil {
+			progress(r)
+		}
+	}
 	var wg sync.WaitGroup
 	for _, wk := range ex.workers {
 		wk := wk
-		for f := range wk.in.funcsRun {
-			delete(wk.in.funcsRun, f)
-		}
-		s0 := wk.s.stats
 		wg.Add(1)
 		go func() {
 			defer wg.Done()
 			for {
 				mu.Lock()
-				for len(stack) == 0 && busy > 0 {
+				for len(stack) == 0 && totalBusy > 0 {
 					cond.Wait()
 				}
 				if len(stack) == 0 {
 					mu.Unlock()
 					cond.Broadcast()
-					break
+					return
 				}
-				if res.Paths >= ex.b.MaxPaths || time.Now().After(deadline) {
-					res.BudgetHit = true
-					stack = nil
-					mu.Unlock()
-					cond.Broadcast()
-					break
-				}
-				pre := stack[len(stack)-1]
+				it := stack[len(stack)-1]
 				stack = stack[:len(stack)-1]
-				busy++
+				st, res := states[it.h], results[it.h]
+				st.queued--
+				if st.started.IsZero() {
+					st.started = time.Now()
+				}
+				if res.Paths >= ex.b.MaxPaths || st.spent > float64(ex.b.MaxSeconds) {
+					res.BudgetHit = true
+					finish(it.h)
+					mu.Unlock()
+					continue
+				}
+				st.busy++
+				totalBusy++
 				res.Paths++
 				mu.Unlock()
 
-				p, status, detail := wk.runPath(fn, name, pre, ex.b)
+				for f := range wk.in.funcsRun {
+					delete(wk.in.funcsRun, f)
+				}
+				s0 := wk.s.stats
+				h := hs[it.h]
+				var hargs []value
+				if h.hasArg {
+					hargs = []value{h.arg}
+				}
+				tp := time.Now()
+				p, status, detail := wk.runPath(h.fn, h.name, it.pre, ex.b, hargs)
+				d := wk.s.stats
 
 				mu.Lock()
-				busy--
+				st.spent += time.Since(tp).Seconds()
+				st.busy--
+				totalBusy--
+				res.Solver.Queries += d.Queries - s0.Queries
+				res.Solver.Sat += d.Sat - s0.Sat
+				res.Solver.Unsat += d.Unsat - s0.Unsat
+				res.Solver.Unknown += d.Unknown - s0.Unknown
+				res.Solver.Errors += d.Errors - s0.Errors
+				res.Solver.Seconds += d.Seconds - s0.Seconds
+				for f, n := range wk.in.funcsRun {
+					res.Funcs[f.String()] += n
+				}
 				res.Status[status]++
 				switch status {
 				case "unsupported":
@@ -261,8 +331,8 @@ func (ex *explorer) run(fn *ssa.Function, name string) *harnessResult {
 					res.Notes[k] += v
 				}
 				for _, f := range p.fails {
-					if !failSeen[f.key()] {
-						failSeen[f.key()] = true
+					if !st.failSeen[f.key()] {
+						st.failSeen[f.key()] = true
 						res.Failures = append(res.Failures, f)
 					}
 				}
@@ -271,34 +341,30 @@ func (ex *explorer) run(fn *ssa.Function, name string) *harnessResult {
 						res.Witness[k] = m
 					}
 				}
-				// children in reverse so that the first alternative is explored first
 				for i := len(p.children) - 1; i >= 0; i-- {
-					stack = append(stack, p.children[i])
+					stack = append(stack, workItem{h: it.h, pre: p.children[i]})
+					st.queued++
 				}
+				finish(it.h)
 				mu.Unlock()
 				cond.Broadcast()
 			}
-			mu.Lock()
-			d := wk.s.stats
-			res.Solver.Queries += d.Queries - s0.Queries
-			res.Solver.Sat += d.Sat - s0.Sat
-			res.Solver.Unsat += d.Unsat - s0.Unsat
-			res.Solver.Unknown += d.Unknown - s0.Unknown
-			res.Solver.Errors += d.Errors - s0.Errors
-			res.Solver.Seconds += d.Seconds - s0.Seconds
-			for f, n := range wk.in.funcsRun {
-				res.Funcs[f.String()] += n
-			}
-			mu.Unlock()
 		}()
 	}
 	wg.Wait()
-	res.Seconds = time.Since(t0).Seconds()
-	sort.Slice(res.Failures, func(i, j int) bool { return res.Failures[i].key() < res.Failures[j].key() })
-	return res
+	for i := range hs {
+		mu.Lock()
+		states[i].busy, states[i].queued = 0, 0
+		if states[i].started.IsZero() {
+			states[i].started = time.Now()
+		}
+		finish(i)
+		mu.Unlock()
+	}
+	return results
 }
 
-func (wk *worker) runPath(fn *ssa.Function, name string, pre prefix, b bounds) (p *pathCtx, status, detail string) {
+func (wk *worker) runPath(fn *ssa.Function, name string, pre prefix, b bounds, hargs []value) (p *pathCtx, status, detail string) {
 	in := wk.in
 	if in.globalDirty {
 		// a previous path wrote package-level state: rebuild this worker's globals
@@ -345,7 +411,7 @@ func (wk *worker) runPath(fn *ssa.Function, name string, pre prefix, b bounds) (
 				status, detail = "engine-error", fmt.Sprint(r)
 			}
 		}()
-		in.call(nil, 0, fn, nil)
+		wk.lastResult = in.call(nil, 0, fn, append([]value{}, hargs...))
 	}()
 	func() {
 		defer func() {
@@ -379,4 +445,33 @@ func classifyPanic(msg string) string {
 		return "div-zero"
 	}
 	return "explicit"
+}
+
+// expand turns a parametrised harness (VerifP_X with VerifP_X_N) into its instances.
+func (ex *explorer) expand(h harness) ([]harness, error) {
+	if h.param == nil {
+		return []harness{h}, nil
+	}
+	wk := ex.workers[0]
+	_, status, detail := wk.runPath(h.param, h.name+"_N", prefix{}, ex.b, nil)
+	if status != "ok" {
+		return nil, fmt.Errorf("%s_N: %s %s", h.name, status, detail)
+	}
+	n, ok := wk.lastResult.(int)
+	if !ok {
+		return nil, fmt.Errorf("%s_N did not return a concrete int", h.name)
+	}
+	var out []harness
+	for i := 0; i < n; i++ {
+		hi := h
+		hi.name = fmt.Sprintf("%s#%d", h.name, i)
+		hi.arg = i
+		hi.hasArg = true
+		out = append(out, hi)
+	}
+	return out, nil
+}
+
+func (ex *explorer) runH(h harness) *harnessResult {
+	return ex.runMany([]harness{h}, nil)[0]
 }
